@@ -45,6 +45,7 @@ var c15Implied = map[string]string{
 var c15Nodes = []string{"Thrift", "Include", "Namespace", "Typedef", "Constant", "Enum", "EnumValue", "StructLike", "Field", "Service", "Function", "Type", "ConstValue", "ConstTypedValue", "MapConstValue", "Annotation"}
 
 func c15(c *core.Check) {
+	c15everyElement(c)
 	c.Explain = "relational COVER + ENUM + TMPL. (a) descriptor side: every composite literal in thrift_reflection that builds a *Descriptor keys every field of that descriptor struct except Extra (a field left out is information silently dropped); ConstValueDescriptor is a tagged union and is covered by the ENUM rule instead. " +
 		"(b) AST side: every attribute of every AST node type (enumerated through go/types) is read inside the call-graph closure of GetFileDescriptor, except resolution-only / implied attributes (reasoned list) and attributes without a slot, for which the checker verifies that the paired descriptor struct really has no such field. " +
 		"(c) ENUM: getConstValueDescriptor handles all six ConstTypes; meta.read and meta.write switch over the same TTypeIDs (necessary for encode-then-decode identity). " +
